@@ -312,6 +312,9 @@ def mk_sphere_line_lattice(k, free_radius=True):
     every returned point lies on both; a line through the centre always meets the sphere in two different points"""
     def case(ctx):
         from geometer import Sphere, Point, Line
+        if ctx.symbolic:
+            from symgeo import symnp
+            symnp.SVD_RANK["rank"] = 2      # a line of 3-space: rank-2 tensor (assumption of the SVD contract stub)
         c, a3, b3 = SL_CONFIGS[k]
         r = ctx.real("r") if free_radius else 2
         if free_radius:
